@@ -335,9 +335,12 @@ where
     // inner allocations are registered after the call returned (the closure must not touch ctx)
     let mut inner: Vec<(NonNull<u8>, Layout)> = Vec::new();
     let inner_ref = &mut inner;
+    let ran = std::cell::Cell::new(false);
+    let ran_ref = &ran;
     let r: Result<Result<Option<TypedOut>, AllocError>, Box<dyn Any + Send>> = if small {
         let val = x | 1;
         let f = move || -> Result<u64, u32> {
+            ran_ref.set(true);
             if inner_allocs {
                 let l = Layout::from_size_align(24, 8).unwrap();
                 if let Ok(p) = s.allocate(l) {
@@ -356,6 +359,7 @@ where
             *b = (x as usize + i * 3) as u8 | 1;
         }
         let f = move || -> Result<Payload, u32> {
+            ran_ref.set(true);
             if inner_allocs {
                 let l = Layout::from_size_align(40, 4).unwrap();
                 if let Ok(p) = s.allocate(l) {
@@ -369,10 +373,15 @@ where
             r.map(|rr| rr.ok().map(|b| (BumpBox::into_raw(b).cast::<u8>(), Layout::new::<Payload>(), bytes_of(&val))))
         })
     };
-    let refused = ctx.refused();
+    // a refusal counts against the outer allocation only if the closure never ran
+    // (once it runs, the outer allocation has succeeded and refusals belong to the closure's own calls)
+    let refused = ctx.refused() && !ran.get();
     let mut rewound = false;
     match r {
         Ok(Ok(Some(out))) => {
+            if ctx.refused() && ran.get() {
+                ctx.mon.borrow_mut().refused_in_op = 0;
+            }
             finish_typed(ctx, Ok(Ok(out)), t, "alloc_try_with", depth);
         }
         Ok(Ok(None)) => {
